@@ -1560,6 +1560,29 @@ func (s *SQLStore) RegisterAttempt(ctx context.Context,
 	return mpPayment, nil
 }
 
+// verifyAttemptBelongsToPayment makes sure the attempt with the given index was
+// registered under the given payment. The attempt resolution tables are keyed
+// by the attempt index only, so without this check a resolution could be
+// recorded for an attempt of a different payment.
+func verifyAttemptBelongsToPayment(ctx context.Context, db SQLQueries,
+	paymentID int64, attemptID uint64) error {
+
+	attempts, err := db.FetchHtlcAttemptsForPayments(
+		ctx, []int64{paymentID},
+	)
+	if err != nil {
+		return fmt.Errorf("failed to fetch htlc attempts: %w", err)
+	}
+
+	for _, attempt := range attempts {
+		if attempt.AttemptIndex == int64(attemptID) {
+			return nil
+		}
+	}
+
+	return fmt.Errorf("HTLC with ID %v not registered", attemptID)
+}
+
 // SettleAttempt marks the specified HTLC attempt as successfully settled,
 // recording the payment preimage and settlement time. The preimage serves as
 // cryptographic proof of payment and is atomically saved to the database.
@@ -1589,6 +1612,13 @@ func (s *SQLStore) SettleAttempt(ctx context.Context, paymentHash lntypes.Hash,
 
 		if err := paymentStatus.updatable(); err != nil {
 			return fmt.Errorf("payment is not updatable: %w", err)
+		}
+
+		err = verifyAttemptBelongsToPayment(
+			ctx, db, dbPayment.GetPayment().ID, attemptID,
+		)
+		if err != nil {
+			return err
 		}
 
 		err = db.SettleAttempt(ctx, sqlc.SettleAttemptParams{
@@ -1665,6 +1695,13 @@ func (s *SQLStore) FailAttempt(ctx context.Context, paymentHash lntypes.Hash,
 		// attempt.
 		if err := paymentStatus.updatable(); err != nil {
 			return fmt.Errorf("payment is not updatable: %w", err)
+		}
+
+		err = verifyAttemptBelongsToPayment(
+			ctx, db, dbPayment.GetPayment().ID, attemptID,
+		)
+		if err != nil {
+			return err
 		}
 
 		var failureMsg bytes.Buffer
